@@ -38,6 +38,7 @@ def runtime():
     global _RT
     if _RT is not None:
         return _RT
+    import asyncio
     from twisted.internet import defer
     from twisted.python.failure import Failure
 
@@ -49,6 +50,15 @@ def runtime():
         def __init__(self, k):
             Exception.__init__(self, k)
             self.k = k
+
+    class BErr(BaseException):      # an exception that is NOT an Exception subclass (like KeyboardInterrupt, SystemExit)
+        def __init__(self, k):
+            BaseException.__init__(self, k)
+            self.k = k
+
+    def mk_exc(kind, k):
+        return Err(k) if kind == "err" else BErr(k) if kind == "berr" else asyncio.CancelledError(k) if kind == "acan" \
+            else defer.CancelledError() if kind == "cancelled" else RuntimeError(kind)
 
     class _Ret(BaseException):      # `return v` from anywhere inside a body (runs enclosing finally blocks)
         def __init__(self, v):
@@ -66,12 +76,17 @@ def runtime():
             return ["err", e.k]
         if isinstance(e, defer.CancelledError):
             return ["cancelled", 0]
+        if isinstance(e, BErr):
+            return ["berr", e.k]
+        if isinstance(e, asyncio.CancelledError):
+            return ["acan", e.args[0] if e.args and isinstance(e.args[0], int) else 0]
         return ["exc:" + type(e).__name__, 0]
 
     def cls_any(x):
         return cls_exc(x.value) if isinstance(x, Failure) else cls_val(x)
 
-    CATCH = {"err": (Err,), "cancel": (defer.CancelledError,), "any": (Exception,)}
+    CATCH = {"err": (Err,), "cancel": (defer.CancelledError,), "any": (Exception,), "berr": (BErr,),
+             "base": (Exception, BErr, asyncio.CancelledError)}
 
     class Env:
         def __init__(self, cfg):
@@ -105,6 +120,8 @@ def runtime():
                     dd.callback(Val(10 + d))
                 elif k == 3:
                     dd.errback(Err(10 + d))
+                elif k == 4:
+                    dd.errback(BErr(10 + d))
             return canceller
 
         def leaf_obs(self, x, d):
@@ -128,6 +145,16 @@ def runtime():
             self.nG += 1
             self.started.add(self.nG)
             return self.nG
+
+        def launch_logged(self, g, mode, prog):
+            """launch(); an exception escaping from the decorated call / ensureDeferred itself is logged as
+            an event the specification has no action for (the outcome must arrive through the Deferred)."""
+            try:
+                return self.launch(g, mode, prog)
+            except BaseException as e:
+                c = cls_exc(e)
+                self.log("escape", g, 0, c[0], c[1])
+                raise
 
         # -- starting an invocation in a given mode; returns its Deferred
         def launch(self, g, mode, prog):
@@ -205,7 +232,7 @@ def runtime():
             else:
                 c = env.new_inv()
                 env.log("spawn", g, c, mode)
-                dc = env.launch(c, mode, prog)
+                dc = env.launch_logged(c, mode, prog)
                 env.dinv[c] = dc
                 dc.addBoth(env.res_obs, c)
                 if style == "await":
@@ -233,7 +260,7 @@ def runtime():
         elif op == "ret":
             raise _Ret(Val(s[1]))
         elif op == "raise":
-            raise Err(s[1])
+            raise mk_exc(s[2] if len(s) > 2 else "err", s[1])
         else:
             raise ValueError(s)
 
@@ -288,7 +315,7 @@ def runtime():
             else:
                 c = env.new_inv()
                 env.log("spawn", g, c, mode)
-                dc = env.launch(c, mode, prog)
+                dc = env.launch_logged(c, mode, prog)
                 env.dinv[c] = dc
                 dc.addBoth(env.res_obs, c)
                 if style == "await":
@@ -316,13 +343,13 @@ def runtime():
         elif op == "ret":
             raise _Ret(Val(s[1]))
         elif op == "raise":
-            raise Err(s[1])
+            raise mk_exc(s[2] if len(s) > 2 else "err", s[1])
         else:
             raise ValueError(s)
 
     # ---- scripted bodies (moves generated by TLC from the specification) -----------------
     def script_exc(k, v):
-        return Err(v) if k == "err" else defer.CancelledError() if k == "cancelled" else RuntimeError(k)
+        return mk_exc(k, v)
 
     def g_script(env, g):
         kids = {}
@@ -337,7 +364,7 @@ def runtime():
                 elif mv[0] == "sp":
                     c = env.new_inv()
                     env.log("spawn", g, c, mv[1])
-                    kids[c] = env.dinv[c] = env.launch(c, mv[1], None)
+                    kids[c] = env.dinv[c] = env.launch_logged(c, mv[1], None)
                     kids[c].addBoth(env.res_obs, c)
                 elif mv[0] == "sy":
                     c = env.new_inv()
@@ -351,7 +378,7 @@ def runtime():
                         raise
                     cc = cls_val(r)
                     env.log("resume", g, 0, cc[0], cc[1])
-            except Exception:
+            except (Exception, BErr, asyncio.CancelledError):
                 pass                      # a scripted body carries on with its script whatever it observed
             if mv[0] == "ret":
                 env.finished.add(g)
@@ -374,9 +401,9 @@ def runtime():
                 elif mv[0] == "sp":
                     c = env.new_inv()
                     env.log("spawn", g, c, mv[1])
-                    kids[c] = env.dinv[c] = env.launch(c, mv[1], None)
+                    kids[c] = env.dinv[c] = env.launch_logged(c, mv[1], None)
                     kids[c].addBoth(env.res_obs, c)
-            except Exception:
+            except (Exception, BErr, asyncio.CancelledError):
                 pass
             if mv[0] == "ret":
                 env.finished.add(g)
@@ -411,7 +438,7 @@ def runtime():
                 if op[0] == "start":
                     g = env.new_inv()
                     env.log("start", g, 0, self.cfg["mode"])
-                    self.top = env.launch(g, self.cfg["mode"], self.cfg.get("prog"))
+                    self.top = env.launch_logged(g, self.cfg["mode"], self.cfg.get("prog"))
                     env.dinv[g] = self.top
                     self.top.addBoth(env.res_obs, g)
                 elif op[0] == "fire":
@@ -419,7 +446,7 @@ def runtime():
                     if op[2] == "ok":
                         env.leaves[op[1]].callback(Val(op[1]))
                     else:
-                        env.leaves[op[1]].errback(Err(op[1]))
+                        env.leaves[op[1]].errback(mk_exc(op[2], op[1]))
                 elif op[0] == "cancel":
                     g = op[1] if len(op) > 1 else 1
                     env.log("cancel", g)
@@ -511,7 +538,7 @@ def gen_prog(rng, depth, budget, top=True):
             stmts.append(["join"])
         elif r < 0.84 and depth > 0:
             body = gen_prog(rng, depth - 1, budget, False)
-            kinds = rng.choice(["err", "cancel", "any", "none"])
+            kinds = rng.choice(["err", "cancel", "any", "none", "berr", "base", "base"])
             handler = gen_prog(rng, depth - 1, budget, False) if kinds != "none" and rng.random() < 0.7 else []
             fin = gen_prog(rng, depth - 1, budget, False) if rng.random() < 0.5 else []
             stmts.append(["try", body, kinds, handler, fin])
@@ -522,7 +549,7 @@ def gen_prog(rng, depth, budget, top=True):
             if rng.random() < 0.5:
                 break
         elif r < 0.98 and not (top and i == 0):
-            stmts.append(["raise", rng.randint(30, 35)])
+            stmts.append(["raise", rng.randint(30, 35), rng.choice(["err", "err", "berr", "berr", "acan"])])
             if rng.random() < 0.5:
                 break
         elif budget[0] > 0:
@@ -549,7 +576,7 @@ def gen_case(rng):
     prog = gen_prog(rng, rng.choice([1, 2, 2, 3]), [rng.randint(2, ND_POOL), rng.randint(0, NG_CAP - 1)])
     nd = max(1, min(ND_POOL, count_awaits(prog) + rng.choice([0, 0, 1])))
     return dict(prog=prog, mode=rng.choice(MODES), nd=nd, ng=NG_CAP,
-                ck=[rng.choice([0, 0, 0, 1, 2, 3]) for _ in range(nd)])
+                ck=[rng.choice([0, 0, 0, 1, 2, 3, 4]) for _ in range(nd)])
 
 
 def drive(cfg, seed, cancel_at=None, extras=True):
@@ -563,9 +590,12 @@ def drive(cfg, seed, cancel_at=None, extras=True):
     r = runtime()["Runner"](cfg)
     ppre = rng.choice([0.0, 0.0, 0.0, 0.3, 0.6, 1.0])
     pok = rng.choice([0.2, 0.5, 0.8, 1.0])
+
+    def outcome():      # a value, or a failure of any kind: Exception, non-Exception BaseException, asyncio.CancelledError
+        return "ok" if rng.random() < pok else rng.choice(["err", "err", "err", "berr", "berr", "acan"])
     for d in range(1, cfg["nd"] + 1):
         if rng.random() < ppre:
-            r.step(("fire", d, "ok" if rng.random() < pok else "err"))
+            r.step(("fire", d, outcome()))
     r.step(("start",))
     susp = 0
     cancelled = False
@@ -590,9 +620,9 @@ def drive(cfg, seed, cancel_at=None, extras=True):
         elif extras and aw and x < 0.27:
             r.step(("cancelleaf", rng.choice(aw)))
         elif aw and (x < 0.8 or not un):
-            r.step(("fire", rng.choice(aw), "ok" if rng.random() < pok else "err"))
+            r.step(("fire", rng.choice(aw), outcome()))
         elif un:
-            r.step(("fire", rng.choice(un), "ok" if rng.random() < pok else "err"))
+            r.step(("fire", rng.choice(un), outcome()))
         else:
             break
     if rng.random() < 0.2:
@@ -622,7 +652,7 @@ def from_behaviour(b):
         elif e == "cancelleaf":
             ops.append(["cancelleaf", h["x"]])
         elif e == "cc":
-            ck[h["x"] - 1] = {"cancelled": 1, "ok": 2, "err": 3}[hist[i + 1]["k"]]
+            ck[h["x"] - 1] = {"cancelled": 1, "ok": 2, "err": 3, "berr": 4}[hist[i + 1]["k"]]
         elif e == "yield":
             scripts[h["g"] - 1].append([{"d": "yd", "v": "yv", "g": "yg"}[h["k"]], h["x"]])
         elif e == "spawn":
@@ -734,7 +764,8 @@ def run(ctx):
             kinds[key] = kinds.get(key, 0) + 1
     ctx.extra["event_kinds_accepted"] = kinds
     need = {"start", "fire", "cancel", "cancelleaf", "end", "cc", "in", "res", "spawn", "spawnyield", "return",
-            "raise:err", "raise:cancelled", "resume:ok", "resume:err", "resume:cancelled", "yield:d", "yield:g", "yield:v"}
+            "raise:err", "raise:cancelled", "raise:berr", "raise:acan", "resume:ok", "resume:err", "resume:cancelled",
+            "resume:berr", "resume:acan", "yield:d", "yield:g", "yield:v"}
     if (need - set(kinds)) and not rej:
         raise MachineryError("vacuity: event kinds never observed: %s" % sorted(need - set(kinds)))
     ctx.selftest_rejects("InlineCBTrace", [t for t in good if nontrivial(t)][-300:], mutate, n=24)
